@@ -250,3 +250,130 @@ Proof.
 Qed.
 
 End Names.
+
+(* ------------------------------------------------------------------ the index stages *)
+Lemma assoc_get_ins_eq {A} k (a : A) l : assoc_get k (assoc_insert k a l) = Some a.
+Proof.
+  induction l as [|[k' a'] l IH]; cbn [assoc_insert assoc_get]; [rewrite bytes_eqb_refl; reflexivity|].
+  destruct (bytes_eqb k' k) eqn:E; cbn [assoc_get]; rewrite E; [reflexivity|exact IH].
+Qed.
+Lemma assoc_get_ins_neq {A} k k2 (a : A) l : k2 <> k -> assoc_get k2 (assoc_insert k a l) = assoc_get k2 l.
+Proof.
+  intros Hne. induction l as [|[k' a'] l IH]; cbn [assoc_insert assoc_get].
+  - destruct (bytes_eqb k k2) eqn:E; [apply bytes_eqb_spec in E; congruence|reflexivity].
+  - destruct (bytes_eqb k' k) eqn:E; cbn [assoc_get].
+    + apply bytes_eqb_spec in E. subst k'. destruct (bytes_eqb k k2) eqn:E2; [apply bytes_eqb_spec in E2; congruence|reflexivity].
+    + destruct (bytes_eqb k' k2); [reflexivity|exact IH].
+Qed.
+
+(* the entries of the path index of model m name allocated nodes whose (path, element name) is in S *)
+Definition IdxNames (S : list (list N * N)) (w : world) (m : N) : Prop :=
+  exists x, nth_opt (w_models w) (N.to_nat m) = Some x /\
+    forall key e, assoc_get key (m_idents x) = Some e ->
+      e < w_next w /\ forall en, w_nodes w e = Some en -> In (key, n_name en) S.
+Definition Functional (S : list (list N * N)) : Prop := forall k n n', In (k, n) S -> In (k, n') S -> n = n'.
+
+(* a recorded entry whose position denotes a node with the recorded name *)
+Definition EntryOK (w : world) (t : itree) (x : list N * list nat * N) : Prop :=
+  exists i n, it_at t (snd (fst x)) = Some i /\ w_nodes w i = Some n /\ n_name n = snd x /\ i < w_next w.
+
+Lemma overlap_false S w x t : Functional S ->
+  (forall key e en, assoc_get key (m_idents x) = Some e -> w_nodes w e = Some en -> In (key, n_name en) S) ->
+  forall en seen,
+    Forall (EntryOK w t) en -> (forall y, In y en -> In (fst (fst y), snd y) S) ->
+    NoDup (map (fun y => fst (fst y)) en) -> (forall y, In y en -> ~ In (fst (fst y)) seen) ->
+    overlap_check w x t (map fst en) seen = Val false.
+Proof.
+  intros HS HI. induction en as [|[[key p] nm] en IH]; intros seen HE HinS Hnd Hseen; cbn [map overlap_check fst]; [reflexivity|].
+  inversion HE as [|? ? (i & n & Hat & Hn & Enm & _) HE']; subst. cbn [fst snd] in *. subst nm. rewrite Hat, Hn.
+  assert (Hd : match ident_live w x key with
+               | Some existing => match w_nodes w existing with Some en0 => negb (n_name en0 =? n_name n) | None => false end
+               | None => false end = false).
+  { unfold ident_live. destruct (assoc_get key (m_idents x)) as [ex|] eqn:Ea; [|reflexivity].
+    destruct (node_dead w ex); [reflexivity|]. destruct (w_nodes w ex) as [en0|] eqn:Ee; [|reflexivity].
+    pose proof (HI key ex en0 Ea Ee) as H1. pose proof (HinS (key, p, n_name n) (or_introl eq_refl)) as H2. cbn [fst snd] in H2.
+    rewrite (HS key _ _ H1 H2), N.eqb_refl. reflexivity. }
+  rewrite Hd. cbn [orb].
+  assert (Hs : existsb (bytes_eqb key) seen = false).
+  { destruct (existsb (bytes_eqb key) seen) eqn:E; [|reflexivity]. apply existsb_exists in E as (y & Hy & Ey).
+    apply bytes_eqb_spec in Ey. subst y. exfalso. apply (Hseen (key, p, n_name n) (or_introl eq_refl)). exact Hy. }
+  rewrite Hs. inversion Hnd as [|? ? Hnot Hnd']; subst.
+  apply IH; auto.
+  - intros y Hy. apply HinS. right. exact Hy.
+  - intros y Hy [E|Hin]; [|apply (Hseen y (or_intror Hy)); exact Hin].
+    apply Hnot. rewrite E. apply (in_map (fun y => fst (fst y))). exact Hy.
+Qed.
+
+Lemma fill_identifiables_ok S m t : forall en w,
+  Forall (EntryOK w t) en -> (forall y, In y en -> In (fst (fst y), snd y) S) -> IdxNames S w m ->
+  exists w', fill_identifiables m t (map fst en) w = Val (OK tt, w') /\ IdxNames S w' m /\ MOnly m w w'.
+Proof.
+  induction en as [|[[key p] nm] en IH]; intros w HE HinS HI; cbn [map fill_identifiables fst].
+  - exists w. split; [reflexivity|]. split; [exact HI|apply MOnly_refl].
+  - inversion HE as [|? ? (i & n & Hat & Hn & Enm & Hb) HE']; subst. cbn [fst snd] in *. subst nm. rewrite Hat.
+    destruct HI as (x & Hx & HIx).
+    unfold wbind at 1. cbn [wget]. unfold wbind at 1. unfold get_model at 1. rewrite Hx.
+    destruct (ident_live w x key).
+    + apply IH; auto; [intros y Hy; apply HinS; right; exact Hy|exists x; auto].
+    + unfold wbind at 1. unfold add_identifiable. rewrite (modify_model_fwd m _ w x Hx).
+      set (x' := set_idents x (assoc_insert key i (m_idents x))).
+      set (w1 := mkWorld (w_nodes w) (w_next w) (w_files w) (list_set (w_models w) (N.to_nat m) x')).
+      assert (Hx1 : nth_opt (w_models w1) (N.to_nat m) = Some x') by (eapply list_set_nth_eq; exact Hx).
+      destruct (IH w1) as (w' & E & HI' & M').
+      * eapply Forall_impl; [|exact HE']. intros y (i0 & n0 & H1 & H2 & H3 & H4). exists i0, n0. auto.
+      * intros y Hy. apply HinS. right. exact Hy.
+      * exists x'. split; [exact Hx1|]. intros key' e Hg. unfold x' in Hg. cbn [m_idents set_idents] in Hg.
+        destruct (list_eq_dec N.eq_dec key' key) as [->|Hne].
+        -- rewrite assoc_get_ins_eq in Hg. injection Hg as <-. split; [exact Hb|]. intros en0 He0. cbn [w_nodes w1] in He0.
+           rewrite Hn in He0. injection He0 as <-. apply (HinS (key, p, n_name n) (or_introl eq_refl)).
+        -- rewrite assoc_get_ins_neq in Hg by exact Hne. apply (HIx key' e Hg).
+      * exists w'. split; [exact E|]. split; [exact HI'|]. eapply MOnly_trans; [|exact M'].
+        repeat split; auto. intros y Hy. rewrite Hx in Hy. injection Hy as <-. exists x'. split; [exact Hx1|]. split; reflexivity.
+Qed.
+
+Lemma fill_references_ok S m t : forall l w,
+  (forall y, In y l -> it_at t (snd y) <> None) -> IdxNames S w m ->
+  exists w', fill_references m t l w = Val (OK tt, w') /\ IdxNames S w' m /\ MOnly m w w'.
+Proof.
+  induction l as [|[r p] l IH]; intros w Hat HI; cbn [fill_references].
+  - exists w. split; [reflexivity|]. split; [exact HI|apply MOnly_refl].
+  - destruct (it_at t p) as [e|] eqn:Ea; [|exfalso; apply (Hat (r, p) (or_introl eq_refl)); exact Ea].
+    destruct HI as (x & Hx & HIx).
+    unfold wbind at 1. unfold add_reference_origin. rewrite (modify_model_fwd m _ w x Hx).
+    set (x' := set_origins x _).
+    set (w1 := mkWorld (w_nodes w) (w_next w) (w_files w) (list_set (w_models w) (N.to_nat m) x')).
+    assert (Hx1 : nth_opt (w_models w1) (N.to_nat m) = Some x') by (eapply list_set_nth_eq; exact Hx).
+    destruct (IH w1) as (w' & E & HI' & M').
+    + intros y Hy. apply Hat. right. exact Hy.
+    + exists x'. split; [exact Hx1|]. intros key e0 Hg. apply (HIx key e0 Hg).
+    + exists w'. split; [exact E|]. split; [exact HI'|]. eapply MOnly_trans; [|exact M'].
+      repeat split; auto. intros y Hy. rewrite Hx in Hy. injection Hy as <-. exists x'. split; [exact Hx1|]. split; reflexivity.
+Qed.
+
+Lemma install_total : forall e parent w, exists t w', install parent e w = Val (OK t, w').
+Proof.
+  fix IH 1. intros [name ty attrs content comment] parent w. cbn [install].
+  unfold wbind at 1. unfold alloc at 1.
+  set (w1 := mkWorld _ _ _ _). set (i := w_next w).
+  assert (G : forall l w1, exists items kids w2,
+             (fix go (l : list (Parser.etree + Parser.cdata)) : W (list citem * list (option itree)) :=
+                match l with
+                | [] => wret ([], [])
+                | inl c :: r => (do t <- install (PElem i) c; do '(cs, ts) <- go r; wret (CElem (it_id t) :: cs, Some t :: ts))%W
+                | inr d :: r => (do '(cs, ts) <- go r; wret (CData (to_hc d) :: cs, None :: ts))%W
+                end) l w1 = Val (OK (items, kids), w2) /\ above (w_next w1) w1 w2).
+  { induction l as [|[c|d] r IHr]; intros wa.
+    - exists [], [], wa. split; [reflexivity|apply above_refl].
+    - destruct (IH c (PElem i) wa) as (tc & wb & Ec). destruct (IHr wb) as (cs & ts & wc & Er & Ar).
+      pose proof (above_install (w_next wa) _ _ _ _ _ (N.le_refl _) Ec) as Ac.
+      exists (CElem (it_id tc) :: cs), (Some tc :: ts), wc. split.
+      + unfold wbind at 1. rewrite Ec. unfold wbind at 1. rewrite Er. reflexivity.
+      + eapply above_trans; [exact Ac|]. eapply above_weaken; [|exact Ar]. destruct Ac as (A1 & _). exact A1.
+    - destruct (IHr wa) as (cs & ts & wc & Er & Ar).
+      exists (CData (to_hc d) :: cs), (None :: ts), wc. split; [|exact Ar]. unfold wbind at 1. rewrite Er. reflexivity. }
+  destruct (G content w1) as (items & kids & w2 & E2 & (A1 & A2 & _)).
+  unfold wbind at 1. rewrite E2.
+  assert (Hn : exists n, w_nodes w2 i = Some n).
+  { rewrite A2 by (unfold w1, i; cbn; lia). unfold w1, i. cbn [w_nodes]. rewrite upd_eq. eauto. }
+  destruct Hn as (n & Hn). unfold wbind at 1. rewrite (modify_node_wupd i _ w2 n Hn). eexists _, _. reflexivity.
+Qed.
